@@ -42,6 +42,8 @@ type Prog struct {
 
 	calleeCache map[ssa.CallInstruction][]*ssa.Function
 	cellStores  map[*ssa.Alloc][]*ssa.Store
+	fieldInit   map[fieldKey][]ssa.Value
+	fieldInitOK map[fieldKey]bool
 }
 
 // Options for Load.
